@@ -13,6 +13,11 @@ CHECKS = {
          "All 361 (quick) / 841+ (thorough) trees of depth<=2 over 2 names and 2-3 contents are reached on the real memfs; from each, every operation of a ~2.4k-6k entry alphabet (16 methods x path spellings incl. '.', '', '//', inner/trailing '..', leading '/', escapes x contents/chunkings/buffer sizes x root/child/grandchild views) is executed and its result, the full tree walk and structural sanity are compared with the model; aliasing is decided by scribbling over every buffer handed in/out and by holding read results across every mutator.",
          "Trusts the 250-line tree model (models/treefs) and the result-class table (DESIGN 2.6); names {a,b}, depth<=2 states; listing order/sizes/times not modelled.",
          "DESIGN.md 3/C01"),
+ "C02": ("model_checking",
+         "explicit-state enumeration of canonical trees; lock-step differential execution of every (state, op) on a real disk filespace (materialised in a scratch dir with canaries outside the root) and a real memfs, both also compared with the tree reference model",
+         "From each of the 361/841 canonical trees every op of the alphabet is applied to both real backends (root and child views). Where the stated preconditions hold (model class MUST-OK) results, returned data/listings (as sets) and the resulting trees must be equal on disk, in memory and in the model; otherwise both must fail cleanly: no panic, nothing outside the addressed paths changes, the host directory outside the root (canary file/dir) is untouched.",
+         "Disk states are materialised with plain os calls; no symlinks/permissions; removal of the real root and directory-into-itself copies are excluded (unbounded on disk).",
+         "DESIGN.md 3/C02"),
  "C08": ("model_checking",
          "stateless preemption-bounded DFS over all schedules of the real fsloop/jobsync code under a controlled scheduler (vsched), fair-yield rule, per-program bounds",
          "Every schedule (up to the stated preemption bound, 2-3 for small programs) of the real producer/consumer/completion goroutines is executed for a family of trees, filters, worker limits, channel capacities and injected failures; oracle = multiset of callback arguments, concurrency high-water mark, callbacks after Wait, error list. Found the lost-item window on the pinned tree (fixed).",
